@@ -20,6 +20,13 @@ func c03Random(tier string) int {
 	return 600
 }
 
+func c03Shared(tier string) int {
+	if tier == "thorough" {
+		return 1500
+	}
+	return 120
+}
+
 func c03SweepBases(tier string) int {
 	if tier == "thorough" {
 		return 60
@@ -33,7 +40,7 @@ func init() {
 		Level:     "exploration",
 		Technique: "reference-model oracle at quiescence + state invariant at every commit boundary + deletion monitor (nothing at or below the canonical anchor is deleted); generated reorg histories and reorgs triggered before any chosen JSON-RPC call of a step",
 		Rule: "random cases: declarations whose plan carries block hashes, batch 1..12, concurrency 1..4, histories of steps interleaved with growth and reorgs (depth 1..4; shorter, equal, longer replacements; repeated and nested), a final growth to strictly above every recorded position, then steps until idle; " +
-			"sweep cases: for each base history a fault-free run lists every RPC request of every step, and a reorg is triggered right before each of them in turn. signature = (mode, plan, batch class, concurrency>1, reorg kinds seen, unwind depth class, trigger method); trivial = shovel never had to delete anything.",
+			"shared-client cases: 2–4 integrations on one source client (shared segment cache, max-reads = number of integrations) with reorgs, growth and restarts, judged per pair; sweep cases: for each base history a fault-free run lists every RPC request of every step, and a reorg is triggered right before each of them in turn. signature = (mode, plan, batch class, concurrency>1, reorg kinds seen, unwind depth class, trigger method); trivial = shovel never had to delete anything.",
 		Assumptions: []string{
 			"'the source settles' is read as: it stops reorganising and keeps producing at least one block above every position ever recorded (a replaced block at the position itself is only detectable through the next block's parent hash)",
 			"only plans that fetch headers or full blocks carry parent hashes (the property's 'data plan includes block hashes')",
@@ -41,13 +48,13 @@ func init() {
 			"a reorg deeper than the retained position history makes the pair start over (C06); such runs are counted (resets) and judged from their new first block",
 		},
 		NCases: func(tier string) int {
-			return c03Random(tier) + c03SweepBases(tier)*c03SweepShards
+			return c03Random(tier) + c03SweepBases(tier)*c03SweepShards + c03Shared(tier)
 		},
 		Run:              c03Run,
 		CrashIsViolation: true,
 		CaseTimeoutS:     300,
 		MinObs: func(tier string) map[string]int64 {
-			return map[string]int64{"reorgs_applied": 500, "steps_with_deletion": 150, "final_verdicts": 300, "multi_block_unwinds": 20, "trigger_runs": 30, "trigger_hit": 25}
+			return map[string]int64{"reorgs_applied": 500, "steps_with_deletion": 150, "final_verdicts": 300, "multi_block_unwinds": 20, "trigger_runs": 30, "trigger_hit": 25, "shared_client_cases": 50}
 		},
 	})
 }
@@ -144,6 +151,12 @@ func c03OnStep(c *vk.Case, kp string, ps *pipeScenario, ob *c03Obs, extra map[st
 }
 
 func c03Run(c *vk.Case) {
+	if i := c.Index - c03Random(c.Tier) - c03SweepBases(c.Tier)*c03SweepShards; i >= 0 {
+		// several integrations sharing one source client (and its segment cache), reorgs forced
+		multiPairScenario(c, "shared-client:", i%4 == 3, true, 2)
+		c.Obs("shared_client_cases", 1)
+		return
+	}
 	if c.Index >= c03Random(c.Tier) {
 		c03Sweep(c, c.Index-c03Random(c.Tier))
 		return
